@@ -38,6 +38,7 @@ CLS = {
     'BlockInfo': B.BlockInfo, 'ValueFlow': B.ValueFlow, 'ValidatorSet': Cf.ValidatorSet,
     'Transaction': T.Transaction, 'ShardAccount': A.ShardAccount, 'AccountBlock': A.AccountBlock, 'ImportFees': T.ImportFees,
     'MsgEnvelopeAny': T.MsgEnvelope, 'InMsg': T.InMsg, 'OutMsg': T.OutMsg, 'BlockExtra': B.BlockExtra, 'Block': B.Block,
+    'ConfigParams': B.ConfigParams, 'BlockCreateStats': B.BlockCreateStats, 'McStateExtra': B.McStateExtra, 'McBlockExtra': B.McBlockExtra,
 }
 
 
@@ -86,7 +87,8 @@ def bundled_block(ctx):
     cell tree; the library's parser must report every leaf the decoder lists"""
     src = open(os.environ.get('VERIF_REPO', '/repo') + '/tests/test_cell.py').read()
     root = Cell.one_from_boc(base64.b64decode(re.search(r"block_boc = '([^']+)'", src).group(1)))
-    parts = [('Block', root), ('BlockInfo', root.refs[0]), ('ValueFlow', root.refs[1]), ('BlockExtra', root.refs[3])]
+    parts = [('Block', root), ('BlockInfo', root.refs[0]), ('ValueFlow', root.refs[1]), ('BlockExtra', root.refs[3]),
+             ('McBlockExtra', root.refs[3].refs[3])]
     jobs = [{'id': k + 1, 'type': 'DecodeL', 'nm': nm, 'tree': tlbkit.cell_tree_t(c)} for k, (nm, c) in enumerate(parts)]
     res = vlib.tlc_map('TlbEncode.tla', jobs, os.path.join(ctx['work'], 'dec'), shards=4)
     out = []
